@@ -32,10 +32,14 @@ QIDX = ("fn", "factory_basic_operations.get_qubit_index")
 
 def check(model: Model, rep: Report, tier: str):
     rep.trust("spec: documented OpenQL instruction names prepz/h/i/measure/x180/x90/mx90/y180/y90/my90, cz+barrier+update_ph, wait, barrier")
-    o1(model, rep)
-    o2_o3(model, rep)
-    o4_o5(model, rep)
-    o6(model, rep)
+    with rep.isolated():
+        o1(model, rep)
+    with rep.isolated():
+        o2_o3(model, rep)
+    with rep.isolated():
+        o4_o5(model, rep)
+    with rep.isolated():
+        o6(model, rep)
 
 
 def _ctor_name(v: Term) -> Optional[str]:
@@ -193,6 +197,26 @@ def o2_o3(model: Model, rep: Report):
                   what="a barrier is not exported on its own qubits", detail="barrier")
 
 
+def _no_composite_in_table(model: Model) -> bool:
+    """the shipped OpenQL table maps no sub-circuit class (evaluated from its literal)"""
+    M = model.cls("OpenQLFactoryManager")
+    expr = M.class_attrs.get("_factory")
+    if expr is None:
+        return False
+    v = Evaluator(model).expr(expr, Frame(None, M.module, {}, M, 0))
+    lk = dict(v[2]).get("factory_lookup") if v[0] == "new" else None
+    if lk is None or lk[0] != "dict":
+        return False
+    comp = model.cls("ICircuitCompositeOperation")
+    for k, _ in lk[1]:
+        if k[0] != "cls":
+            return False
+        c = model.maybe_cls(k[1])
+        if c is None or comp in c.mro():
+            return False
+    return True
+
+
 def o4_o5(model: Model, rep: Report):
     rep.rule("C15.O4", "OpenQLCircuitFactoryManager.construct: ranges over all nodes in order; sub-circuit -> self.construct(operation, ...) added to the program; unsupported -> skipped; "
                        "supported -> exactly one kernel = factory_lookup[type(operation)].construct(operation, kernel); the pending kernel is added to the program before any sub-program "
@@ -213,7 +237,11 @@ def o4_o5(model: Model, rep: Report):
         n += 1
         loops = [e for e in p.events if e.kind == "loop"]
         if len(loops) != 1:
-            raise AnalysisError(f"{construct}: expected one walk loop")
+            # other loops (a post-walk repetition of the final flush, say) are not the walk: the walk is the loop over the circuit's nodes / listing
+            walks = [e for e in loops if e.term is not None and ("get_node_iterator" in show(e.term) or "decomposed_operations" in show(e.term) or "_circuit_graph" in show(e.term))]
+            if len(walks) != 1:
+                raise AnalysisError(f"{construct}: expected one walk loop")
+            loops = walks
         lp = loops[0]
         struct = ("attr", circ, "circuit_structure") if subst(p.cond, {is_decl: TRUE}) != FALSE and is_decl in atoms_of(p.cond) and subst(p.cond, {is_decl: FALSE}) == FALSE else circ
         dom = node_iterator_domain(lp.term)
@@ -283,7 +311,10 @@ def o4_o5(model: Model, rep: Report):
                 if inner_loops or adds_direct:
                     problems.append(f"[{case}] a plain operation adds a sub-program")
             ext = ("call", ("attr", ("sub", ("attr", s, "factory_lookup"), ("call", "type", (op,), ())), "construct"), (op, oldk), ())
-            if sup:
+            if sup and comp and _no_composite_in_table(model):
+                # the shipped table names leaf classes only: a sub-circuit is never 'supported', so what the code would do in that case is not observable
+                pass
+            elif sup:
                 if newk != ext:
                     problems.append(f"[{case}] kernel becomes {show(newk)} instead of factory_lookup[type(operation)].construct(operation, kernel)")
             else:
